@@ -31,7 +31,7 @@ def make_args(**kw):
     return types.SimpleNamespace(**base)
 
 
-def ascending(E, name, k, first_eq=None, first_ge=None):
+def ascending(E, name, k, first_eq=None, first_ge=None, strict=True):
     xs = []
     for i in range(k):
         v = E.real(f"{name}{i}")
@@ -41,7 +41,7 @@ def ascending(E, name, k, first_eq=None, first_ge=None):
             elif first_ge is not None:
                 E.assume(v >= first_ge)
         else:
-            E.assume(v > xs[-1])
+            E.assume(v > xs[-1] if strict else v >= xs[-1])
         xs.append(v)
     return xs
 
@@ -109,8 +109,9 @@ def run_level1(E, cfg):
     """returns ctx; ctx['exc'] is set when the real code raised"""
     KR, KQ, NP, rev = cfg["KR"], cfg["KQ"], cfg["NP"], cfg["rev"]
     fragment = cfg.get("fragment", False)
-    r = ascending(E, "r", KR, first_ge=0)
-    q = ascending(E, "q", KQ, first_eq=None if fragment else 0, first_ge=0 if fragment else None)
+    strict = not cfg.get("coincident", False)
+    r = ascending(E, "r", KR, first_ge=0, strict=strict)
+    q = ascending(E, "q", KQ, first_eq=None if fragment else 0, first_ge=0 if fragment else None, strict=strict)
     if fragment:
         qlen = E.real("qlen")
         E.assume(qlen >= (q[-1] + 1 if q else 1))
